@@ -41,8 +41,10 @@ func main() {
 		replay   = flag.String("replay", "", "replay a violation file")
 		list     = flag.Bool("list", false, "list properties and rules")
 		verbose  = flag.Bool("v", false, "print every obligation")
+		evdir    = flag.String("evidence-dir", "", "developer: write evidence and violation files below this directory instead of <verif>/evidence")
 	)
 	flag.Parse()
+	finaliseProps()
 	if *verif == "" {
 		exe, err := os.Executable()
 		if err == nil {
@@ -63,6 +65,7 @@ func main() {
 	}
 	useCHA = *cg == "cha"
 	verifDir = *verif
+	evidenceDir = *evdir
 
 	switch {
 	case *list:
@@ -98,6 +101,7 @@ func main() {
 }
 
 var useCHA bool
+var evidenceDir string
 
 func rulesFor(ps *PropSpec, tier string) []string {
 	rs := append([]string{}, ps.Quick...)
@@ -284,8 +288,12 @@ func runProperty(id, tier, repo, verif string, verbose bool) int {
 		return 2
 	}
 	seed, _ := strconv.Atoi(os.Getenv("VERIF_SEED"))
-	evPath := filepath.Join(verif, "evidence", id+".json")
-	vioDir := filepath.Join(verif, "evidence", "violations")
+	evRoot := filepath.Join(verif, "evidence")
+	if evidenceDir != "" {
+		evRoot = evidenceDir
+	}
+	evPath := filepath.Join(evRoot, id+".json")
+	vioDir := filepath.Join(evRoot, "violations")
 	cleanViolations(vioDir, id)
 
 	known, kerr := loadKnownFindings(filepath.Join(verif, "known_findings.json"))
